@@ -19,7 +19,7 @@ FN = ['parsePkgLength', 'parseNumConstant', 'parseString', 'parseNameString', 'n
 class C12(flow.Spec):
     prop = 'C12'
     props_files = ['theories/Props/C12.v', 'theories/Props/C12_examples.v', 'theories/Props/C12_reader_trans.v']
-    model_targets = ['theories/Aml/RunC12.vo', 'theories/Aml/ParserProofsTop.vo', 'theories/Aml/ParserTotalTop.vo', 'theories/Aml/ParserTotalCalls.vo', 'theories/Aml/ParserTotalReloc.vo', 'theories/Aml/ParserTotalMerge.vo', 'theories/Aml/ParserTotalResolve.vo', 'theories/Aml/ParserTotalDeferW.vo', 'theories/Aml/ParserTotalDeferV.vo', 'theories/Aml/ParserTotalChain.vo', 'theories/Aml/ParserTotalPass2.vo']
+    model_targets = ['theories/Aml/RunC12.vo', 'theories/Aml/ParserProofsTop.vo', 'theories/Aml/ParserTotalTop.vo', 'theories/Aml/ParserTotalCalls.vo', 'theories/Aml/ParserTotalReloc.vo', 'theories/Aml/ParserTotalMerge.vo', 'theories/Aml/ParserTotalResolve.vo', 'theories/Aml/ParserTotalDeferW.vo', 'theories/Aml/ParserTotalDeferV.vo', 'theories/Aml/ParserTotalChain.vo', 'theories/Aml/ParserTotalPass2.vo', 'theories/Aml/ParserTotalPass1.vo']
     pkg = 'device/acpi/aml'
     harness = [os.path.join(H, 'zz_verif_c12_test.go'), os.path.join(H, 'zz_verif_amlcommon_test.go')]
     test = 'TestVerifC12$'
@@ -115,6 +115,16 @@ class C12(flow.Spec):
                'whole-parser invariants, empty scope stack, []byte typing, the memory bound and SH (root facts, Scope-directive shape, TM2, PEND): '
                'connectNamedObjArgs preserves SH (abstract invariant threaded through the pass, ParserTotalConn2.v / ParserTotalPass2.v).  The ONLY step of '
                'ParseAML not covered by a chained no-panic theorem is "the first pass establishes SH"',
+               'C12_parse_total_partial_first_pass_shape: the FIRST PASS from the initial state of any table over any pool with R, valid indexes, live '
+               'parentless ScopeBlock root, TM2 and no object carrying the new handle never panics and on success leaves an empty scope stack and LI '
+               '(root facts, TM2 for all Methods incl. the new ones, PEND, the structure of the Scope directives) - frame version of the first pass '
+               '(ParserTotalFirst2.v), judgement bn (ParserTotalBenign.v), invariant step (ParserTotalPass1.v).  '
+               'C12_parse_total_nopanic_if_names: END TO END - parseAML_body (all six passes, any fuel) from init_state of any table over any such pool '
+               '(+ []byte typing, slices inside, explicit quadratic memory bound) NEVER panics and re-establishes R / valid indexes / slices-inside, '
+               'PROVIDED two facts about names hold in the state the first pass produces (NAMEOK): the name field of every Scope directive of the new '
+               'table has no lead character (newObject keeps the name of a reused free slot), and the []byte of every name-path object is a good path '
+               '(four-byte paths start with a name character, \\ or ^; a property of parseNameString).  These two lemmas are the ONLY missing links of the '
+               'unconditional end-to-end theorem; fuel is NOT analysed',
                'the unproved parts of C12_full_parse_total (no Panic / OutOfFuel and R for the later passes, outcome class of load) are covered '
                'by the correspondence of the extracted model (explicit Panic / OutOfFuel outcomes, all passes modelled) with the real parser '
                'and by the harness monitors (outcome class, watchdog, independent link checker, PrettyPrint)',
